@@ -1,3 +1,4 @@
+-- DRIVER: pairf Pms.GenDriver.handlePairF
 import Pms.Model.Io
 import Pms.Gen.PairF
 /-! Driver operations that evaluate regenerated Float terms (translator validation). -/
